@@ -1,11 +1,13 @@
 import CkbVerif.Driver.Util
 import CkbVerif.Model.Cache
+import CkbVerif.Gen.Cache
 
 /-! Line-protocol driver for C14 (protocol: see harness/n14/src/c14.rs).
 
 ```
 max <cycles>                                   block cycle limit of the case                     → ok
 blk <w>:<timeRel>:<capOk>:<cycles|x>:<fee>;…   one verified block: its non-cellbase transactions → ok fees=… cycles=… | err <class>
+blks <w>:…                                     a block verified with scripts skipped (assume-valid window, Switch::DISABLE_SCRIPT) → ok fees=… cycles=… | err <class>
 warm <w>:…                                     a block verified inside an attempt that failed later (results dropped, cache kept) → ok
 sub <w>:<timeRel>:<capOk>:<cycles|x>:<fee>     tx-pool submission (`verify_rtx`, a success is cached)   → ok | err <class>
 tst <w>:…                                      `test_accept_tx` (`verify_rtx`, nothing is cached)       → ok cycles=… fee=… | err <class>
@@ -16,6 +18,12 @@ cw <k> / cd <k>                                cell k created (insert_cells) / c
 live <k>                                       have_cell / is_live                                → true | false
 cg <data|hash> <k>                             guarded read: have_cell, then get_cell_data(_hash) → some | none
 cl <data|hash> <k>                             bare get_cell_data(_hash), answer unused (warms the cache) → ok
+sys <-|c1,c2,g10=1+3,…>                        SYSTEM_CELL: not initialised / this map (c = code dep, g = dep group = members) → ok
+st <live|dead|unknown> <a-b,c,…>               CellProvider::cell / CellChecker::is_live of these out-points (default unknown) → ok
+grp <op> <m1+m2+…|x>                           parse_dep_group_data of the cell's data (x = empty / malformed / empty vector) → ok
+res <seen|-> <deps>                            resolve_transaction's cell deps (c<op> | g<op> | c<lo>-<hi>); budget = MAX_DEP_EXPANSION_LIMIT (translator)
+                                               → ok cells=<n> h=<checksum> groups=<ids> | err dead <op> | err unknown <op> | err invalid <op> | err overmax
+chk                                            ResolvedTransaction::check of the deps of the last resolved transaction → ok | err dead <op> | err unknown <op>
 ```
 The model keeps the verification cache and answers each `blk` / `sub` / `tst` through the *cached*
 path (`Model.Cache.blockVerify` / `cached`); the transaction content (`capOk`, cycles, fee) on the
@@ -39,6 +47,10 @@ structure DS where
   cols : List (String × Cached Nat) := []
   cdata : Cells Nat := ⟨fun _ => false, ⟨fun _ => none, []⟩⟩
   chash : Cells Nat := ⟨fun _ => false, ⟨fun _ => none, []⟩⟩
+  sys : Option SysMap := none
+  stat : List (Nat × Nat × CellSt) := []
+  grps : List (Nat × Option (List Nat)) := []
+  last : Resolved := ⟨[], [], 0⟩
 
 def parseTx (s : String) : Option TxD :=
   match s.splitOn ":" with
@@ -68,6 +80,14 @@ def blockLine (max : Nat) (c : VCache) (txs : List TxD) : VCache × String :=
   | .error .cycles => (r.1, "err cycles")
   | .ok cs => (r.1, s!"ok fees={showNatList (cs.map (·.fee))} cycles={showNatList (cs.map (·.cycles))}")
 
+/-- `BlockTxsVerifier::verify(_, skip_script_verify = true)` = `Model.Cache.blockVerifySw … true` -/
+def blockLineSkip (max : Nat) (c : VCache) (txs : List TxD) : VCache × String :=
+  let r := blockVerifySw (contentOf txs) max c true (txs.map fun t => (t.w, t.tr))
+  match r.2 with
+  | .error (.tx e) => (r.1, "err " ++ errName e)
+  | .error .cycles => (r.1, "err cycles")
+  | .ok cs => (r.1, s!"ok fees={showNatList (cs.map (·.fee))} cycles={showNatList (cs.map (·.cycles))}")
+
 def txOut : Except TxErr Completed → String
   | .error e => "err " ++ errName e
   | .ok c => s!"ok cycles={c.cycles} fee={c.fee}"
@@ -85,11 +105,57 @@ def cellsStep (s : DS) (which : String) (op : LOp Nat) : DS × LAns Nat :=
   if which == "hash" then let r := lstep s.chash op; ({ s with chash := r.1 }, r.2)
   else let r := lstep s.cdata op; ({ s with cdata := r.1 }, r.2)
 
+/-! ### SYSTEM_CELL lines -/
+
+def provOf (s : DS) : Prov :=
+  { status := fun op => match s.stat.find? (fun e => e.1 ≤ op && op ≤ e.2.1) with | some e => e.2.2 | none => .unknown
+    members := fun op => match s.grps.find? (·.1 == op) with | some e => e.2 | none => none }
+
+def parseRange (t : String) : Option (Nat × Nat) :=
+  match t.splitOn "-" with
+  | [a] => do let a ← parseNat? a; pure (a, a)
+  | [a, b] => do let a ← parseNat? a; let b ← parseNat? b; pure (a, b)
+  | _ => none
+
+def parsePlus (t : String) : Option (List Nat) :=
+  if t == "x" then none else some ((t.splitOn "+").filterMap parseNat?)
+
+def parseSysEntry (t : String) : Option (Dep × SysDep) :=
+  if t.startsWith "c" then do
+    let op ← parseNat? (t.drop 1).toString
+    pure (⟨op, false⟩, .cell op)
+  else if t.startsWith "g" then
+    match (t.drop 1).toString.splitOn "=" with
+    | [g, ms] => do
+      let g ← parseNat? g
+      pure (⟨g, true⟩, .group g ((ms.splitOn "+").filterMap parseNat?))
+    | _ => none
+  else none
+
+def parseDeps (t : String) : List Dep :=
+  if t == "-" then [] else
+  (t.splitOn ",").flatMap fun tok =>
+    let grp := tok.startsWith "g"
+    match parseRange (tok.drop 1).toString with
+    | some (a, b) => (List.range (b + 1 - a)).map fun i => (⟨a + i, grp⟩ : Dep)
+    | none => []
+
+def depErrOut : DepErr → String
+  | .dead op => s!"err dead {op}"
+  | .unknown op => s!"err unknown {op}"
+  | .invalidGroup op => s!"err invalid {op}"
+  | .overMax => "err overmax"
+
+def checksum (l : List Nat) : Nat := l.foldl (fun acc x => (acc * 31 + x + 1) % 1000000007) 0
+
 def step (s : DS) (ts : List String) : DS × String :=
   match ts with
   | ["max", m] => ({ s with max := (parseNat? m).getD 0 }, "ok")
   | ["blk", txs] =>
     let (c', out) := blockLine s.max s.cache (parseTxs txs)
+    ({ s with cache := c' }, out)
+  | ["blks", txs] =>
+    let (c', out) := blockLineSkip s.max s.cache (parseTxs txs)
     ({ s with cache := c' }, out)
   | ["warm", txs] =>
     let (c', _) := blockLine s.max s.cache (parseTxs txs)
@@ -143,6 +209,26 @@ def step (s : DS) (ts : List String) : DS × String :=
     match parseNat? k with
     | some k => ((cellsStep s which (.load k)).1, "ok")
     | none => (s, "bad-op")
+  | ["sys", m] =>
+    if m == "-" then ({ s with sys := none }, "ok")
+    else ({ s with sys := some ((m.splitOn ",").filterMap parseSysEntry) }, "ok")
+  | ["st", st, rs] =>
+    let v : CellSt := if st == "live" then .live else if st == "dead" then .dead else .unknown
+    let add := (rs.splitOn ",").filterMap fun r => (parseRange r).map fun (a, b) => (a, b, v)
+    ({ s with stat := add ++ s.stat }, "ok")
+  | ["grp", g, ms] =>
+    match parseNat? g with
+    | some g => ({ s with grps := (g, parsePlus ms) :: s.grps }, "ok")
+    | none => (s, "bad-op")
+  | ["res", seen, deps] =>
+    let seen := if seen == "-" then [] else (seen.splitOn ",").filterMap parseNat?
+    match resolveDeps CkbVerif.Gen.Cache.MAX_DEP_EXPANSION_LIMIT s.sys seen (provOf s) (parseDeps deps) with
+    | .error e => (s, depErrOut e)
+    | .ok r => ({ s with last := r }, s!"ok cells={r.cellDeps.length} h={checksum r.cellDeps} groups={showNatList r.depGroups}")
+  | ["chk"] =>
+    match checkDeps s.sys (provOf s) s.last with
+    | .error e => (s, depErrOut e)
+    | .ok _ => (s, "ok")
   | _ => (s, "bad-op")
 
 def main (_args : List String) : IO UInt32 :=
